@@ -12,6 +12,7 @@ import Signac.ImportExport
 import Signac.Proofs.IEChecks
 import Signac.Proofs.IERoundtrip
 import Signac.Proofs.IENested
+import Signac.Proofs.IENestedMore
 import Signac.Proofs.IEFrame
 import Signac.Proofs.IEExists
 import Signac.Proofs.IESchema
@@ -183,7 +184,9 @@ theorem valid_paths_roundtrip_full_false : ¬ valid_paths_roundtrip_full := by
     for all targets when no job sits at the target root, e.g. for every project with two or more
     jobs (`valid_paths_roundtrip_subdirs`, `valid_paths_roundtrip_multi`), and for all targets under
     the hypothesis that no entry of the root job has the empty string as its first path component
-    (`valid_paths_roundtrip_partial`). -/
+    (`valid_paths_roundtrip_partial`); in particular for every project without empty path components
+    (`valid_paths_roundtrip`, the headline statement), and for directory targets with ANY parents-first
+    visiting order without any condition on names (`valid_paths_roundtrip_dir_anyorder`). -/
 def valid_paths_roundtrip_nested : Prop :=
   ∀ (hash : JVal → String) (P : Project) (ds : List Comps) (t : Target),
     P.length = ds.length → (t = .dir → P ≠ []) → (t = .zip → NoEmptyDirs P) → WF hash P → PrefixFree ds →
@@ -328,6 +331,50 @@ theorem valid_paths_roundtrip_multi (hash : JVal → String) (P : Project) (ds :
       · exact (h1.1 b List.mem_cons_self).1 (h ▸ List.nil_prefix)
       · exact (h1.1 [] h).2 List.nil_prefix
 
+/-- directory, ANY admissible visiting order, without `NoNestedSp` and without any condition on
+    names: for every `order` that is duplicate-free, lists parents before children (`ParentsFirst`;
+    `os.walk(topdown=True)` always does, whatever the listing order inside each directory) and
+    reaches every job directory, the import gives back the project.  A nested state point file is
+    harmless because its job directory is visited — and identified — before anything below it. -/
+theorem valid_paths_roundtrip_dir_anyorder (hash : JVal → String) (P : Project) (ds : List Comps)
+    (hlen : P.length = ds.length) (hne : P ≠ []) (hwf : WF hash P) (hpf : PrefixFree ds)
+    (order : List Comps) (hnd : order.Nodup) (hpar : ParentsFirst order) (hall : ∀ d ∈ ds, d ∈ order) :
+    (importFrom .dir hash .none [] P ds order).err = none
+    ∧ ProjEquiv (importFrom .dir hash .none [] P ds order).proj P := by
+  have hall' : ∀ e ∈ P.zip ds, e.2 ∈ order :=
+    fun e he => hall e.2 (List.of_mem_zip (a := e.1) (b := e.2) he).2
+  have h := dir_roundtrip_anyorder (goodExportN_of hwf hpf) order hnd hpar hall'
+  rw [zip_fst_eq hlen] at h
+  have hemp : P.isEmpty = false := by
+    cases P with
+    | nil => exact absurd rfl hne
+    | cons _ _ => rfl
+  simp only [importFrom, hemp, Bool.false_eq_true, if_false]
+  exact ⟨h.1, h.2.1, h.2.2⟩
+
+/-- the model's own visiting order (`sorted`) is such an order: duplicate-free, parents first, and
+    it reaches every job directory — when no path component is empty (`PathsWF`, and the first
+    component of every export path) -/
+theorem walkOrder_admissible_nested (hash : JVal → String) (P : Project) (ds : List Comps)
+    (hwf : WF hash P) (hp : PathsWF P) (hds : ∀ d ∈ ds, d.head? ≠ some "") (hpf : PrefixFree ds) :
+    (walkOrder (exportMembers P ds)).Nodup ∧ ParentsFirst (walkOrder (exportMembers P ds))
+    ∧ ∀ e ∈ P.zip ds, e.2 ∈ walkOrder (exportMembers P ds) :=
+  have h := walkOrder_okN (goodExportN_of hwf hpf)
+  ⟨h.1, walkOrder_export_parentsFirst hp hds, h.2⟩
+
+/-- HEADLINE.  For every well-formed project (distinct ids, every job directory holds its state point
+    file, no empty path component), every prefix-free path list and every target kind (directory,
+    zip, tar / compressed tar): export followed by import into an empty project raises nothing and
+    gives back the same jobs — ids, state point files, documents, all files, nested state point files
+    included.  (zip: under `NoEmptyDirs`, known finding F-16e; directory: a non-empty project, an
+    empty one creates nothing and the import refuses the origin, `empty_dir_export_raises_first`.) -/
+theorem valid_paths_roundtrip (hash : JVal → String) (P : Project) (ds : List Comps) (t : Target)
+    (hlen : P.length = ds.length) (hne : t = .dir → P ≠ []) (hnd : t = .zip → NoEmptyDirs P)
+    (hwf : WF hash P) (hp : PathsWF P) (hpf : PrefixFree ds) :
+    (importFrom t hash .none [] P ds (walkOrder (exportMembers P ds))).err = none
+    ∧ ProjEquiv (importFrom t hash .none [] P ds (walkOrder (exportMembers P ds))).proj P :=
+  valid_paths_roundtrip_partial hash P ds t hlen hne hnd hwf hpf (fun _ => topNamed_of_pathsWF hp)
+
 /-! ### import never overwrites, never leaves the job directories -/
 
 /-- zip: if the export contains a job whose id the destination already holds, the import raises
@@ -362,6 +409,87 @@ theorem import_no_overwrite_dir (hash : JVal → String) (P : Project) (ds : Lis
     | cons _ _ => rfl
   simp only [importFrom, hne, Bool.false_eq_true, if_false]
   exact dir_exists (goodExport_of hwf hnn hpf) dst order hnd hall' hex
+
+/-- zip WITHOUT `NoNestedSp`: the extra hypothesis is `[] ∈ ds → TopNamed P` (only when a job sits at
+    the target root: no entry with the empty string as first path component). -/
+theorem import_no_overwrite_zip_nested (hash : JVal → String) (P : Project) (ds : List Comps) (dst : Project)
+    (hwf : WF hash P) (hne : NoEmptyDirs P) (hpf : PrefixFree ds) (htop : [] ∈ ds → TopNamed P)
+    (hex : ∃ e ∈ P.zip ds, hasId e.1.id dst = true) (order : List Comps) :
+    importFrom .zip hash .none dst P ds order = ⟨dst, some .destinationExists, []⟩ := by
+  show importZip hash .none dst (zipMembers P ds) = _
+  rw [zipMembers_eq ds hne]
+  exact zip_existsN (goodExportN_of hwf hpf) (topNamedE_of htop) dst hex
+
+/-- tar WITHOUT `NoNestedSp`, nothing extra. -/
+theorem import_no_overwrite_tar_nested (hash : JVal → String) (P : Project) (ds : List Comps) (dst : Project)
+    (hwf : WF hash P) (hpf : PrefixFree ds)
+    (hex : ∃ e ∈ P.zip ds, hasId e.1.id dst = true) (order : List Comps) :
+    importFrom .tar hash .none dst P ds order = ⟨dst, some .destinationExists, []⟩ :=
+  tar_existsN (goodExportN_of hwf hpf) dst hex
+
+/-- directory WITHOUT `NoNestedSp`, any admissible visiting order (duplicate-free, parents first,
+    reaching every job directory), nothing extra. -/
+theorem import_no_overwrite_dir_nested (hash : JVal → String) (P : Project) (ds : List Comps) (dst : Project)
+    (hwf : WF hash P) (hpf : PrefixFree ds)
+    (hex : ∃ e ∈ P.zip ds, hasId e.1.id dst = true)
+    (order : List Comps) (hnd : order.Nodup) (hpar : ParentsFirst order) (hall : ∀ d ∈ ds, d ∈ order) :
+    (importFrom .dir hash .none dst P ds order).err = some .destinationExists := by
+  have hall' : ∀ e ∈ P.zip ds, e.2 ∈ order :=
+    fun e he => hall e.2 (List.of_mem_zip (a := e.1) (b := e.2) he).2
+  have hne : P.isEmpty = false := by
+    rcases hex with ⟨e, he, _⟩
+    cases P with
+    | nil => simp at he
+    | cons _ _ => rfl
+  simp only [importFrom, hne, Bool.false_eq_true, if_false]
+  exact dir_existsN (goodExportN_of hwf hpf) dst order hnd hpar hall' hex
+
+/-- directory WITHOUT `NoNestedSp`, the model's own (sorted) visiting order: `[] ∈ ds → TopNamed P`. -/
+theorem import_no_overwrite_dir_walk_nested (hash : JVal → String) (P : Project) (ds : List Comps)
+    (dst : Project) (hwf : WF hash P) (hpf : PrefixFree ds) (htop : [] ∈ ds → TopNamed P)
+    (hex : ∃ e ∈ P.zip ds, hasId e.1.id dst = true) :
+    (importFrom .dir hash .none dst P ds (walkOrder (exportMembers P ds))).err = some .destinationExists := by
+  have G := goodExportN_of hwf hpf
+  have hne : P.isEmpty = false := by
+    rcases hex with ⟨e, he, _⟩
+    cases P with
+    | nil => simp at he
+    | cons _ _ => rfl
+  simp only [importFrom, hne, Bool.false_eq_true, if_false]
+  exact dir_exists_order G dst _ (walkOrder_okN G).1 (walkOrder_okN G).2
+    (walkOrder_noBadPair G (topNamedE_of htop)) hex
+
+/-- All target kinds, no extra hypothesis, for projects with two or more jobs (no job can sit at the
+    target root then): the import raises DestinationExistsError. -/
+theorem import_no_overwrite_multi (hash : JVal → String) (P : Project) (ds : List Comps) (dst : Project)
+    (t : Target) (hlen : P.length = ds.length) (h2 : 2 ≤ P.length) (hnd : t = .zip → NoEmptyDirs P)
+    (hwf : WF hash P) (hpf : PrefixFree ds) (hex : ∃ e ∈ P.zip ds, hasId e.1.id dst = true) :
+    (importFrom t hash .none dst P ds (walkOrder (exportMembers P ds))).err = some .destinationExists := by
+  have hroot : [] ∈ ds → TopNamed P := fun h => absurd h (root_not_mem_of_two hpf (hlen ▸ h2))
+  cases t with
+  | zip => rw [import_no_overwrite_zip_nested hash P ds dst hwf (hnd rfl) hpf hroot hex]
+  | tar => rw [import_no_overwrite_tar_nested hash P ds dst hwf hpf hex]
+  | dir => exact import_no_overwrite_dir_walk_nested hash P ds dst hwf hpf hroot hex
+
+/-- All target kinds, well-formed paths (`PathsWF`): the import raises DestinationExistsError; for zip and
+    tar before anything is copied (destination unchanged, nothing written). -/
+theorem import_no_overwrite (hash : JVal → String) (P : Project) (ds : List Comps) (dst : Project)
+    (t : Target) (hnd : t = .zip → NoEmptyDirs P) (hwf : WF hash P) (hp : PathsWF P) (hpf : PrefixFree ds)
+    (hex : ∃ e ∈ P.zip ds, hasId e.1.id dst = true) :
+    (importFrom t hash .none dst P ds (walkOrder (exportMembers P ds))).err = some .destinationExists
+    ∧ (t ≠ .dir → importFrom t hash .none dst P ds (walkOrder (exportMembers P ds))
+                    = ⟨dst, some .destinationExists, []⟩) := by
+  have hroot : [] ∈ ds → TopNamed P := fun _ => topNamed_of_pathsWF hp
+  cases t with
+  | zip =>
+    have := import_no_overwrite_zip_nested hash P ds dst hwf (hnd rfl) hpf hroot hex
+      (walkOrder (exportMembers P ds))
+    exact ⟨by rw [this], fun _ => this⟩
+  | tar =>
+    have := import_no_overwrite_tar_nested hash P ds dst hwf hpf hex (walkOrder (exportMembers P ds))
+    exact ⟨by rw [this], fun _ => this⟩
+  | dir =>
+    exact ⟨import_no_overwrite_dir_walk_nested hash P ds dst hwf hpf hroot hex, fun h => absurd rfl h⟩
 
 /-- zip, any archive / schema / destination: if the import raises at all, it raised during the
     analysis — nothing has been copied, nothing written. -/
@@ -544,6 +672,104 @@ example (t : Target) :
         (walkOrder (exportMembers [j3, j2] [["a", "1"], ["a", "10"]]))).proj [j3, j2] :=
   valid_paths_roundtrip_multi h0 [j3, j2] [["a", "1"], ["a", "10"]] t rfl (by decide)
     (fun _ => ex_nested.2.2.1) ex_nested.1 ex_nested.2.2.2.2
+
+/-- hypothesis `PathsWF` of `valid_paths_roundtrip` / `import_no_overwrite` / `walkOrder_admissible_nested` -/
+private theorem ex_pathswf : PathsWF [j3, j2] := by
+  intro j hj fc hfc
+  simp only [List.mem_cons, List.not_mem_nil, or_false] at hj
+  rcases hj with rfl | rfl <;> simp only [j3, j2, List.mem_cons, List.not_mem_nil, or_false] at hfc
+  · rcases hfc with rfl | rfl | rfl <;> simp [fnSp, Extracted.FN_STATE_POINT]
+  · rcases hfc with rfl | rfl <;> simp [fnSp, Extracted.FN_STATE_POINT]
+
+example (t : Target) :
+    (importFrom t h0 .none [] [j3, j2] [["a", "1"], ["a", "10"]]
+        (walkOrder (exportMembers [j3, j2] [["a", "1"], ["a", "10"]]))).err = none
+    ∧ ProjEquiv (importFrom t h0 .none [] [j3, j2] [["a", "1"], ["a", "10"]]
+        (walkOrder (exportMembers [j3, j2] [["a", "1"], ["a", "10"]]))).proj [j3, j2] :=
+  valid_paths_roundtrip h0 [j3, j2] [["a", "1"], ["a", "10"]] t rfl (by intro _; simp)
+    (fun _ => ex_nested.2.2.1) ex_nested.1 ex_pathswf ex_nested.2.2.2.2
+
+private theorem mem_j3 {j : Job} (hj : j ∈ [j3]) : j ∈ [j3, j2] := by
+  simp only [List.mem_singleton] at hj
+  subst hj
+  exact List.mem_cons_self
+
+/-- `valid_paths_roundtrip` with a job AT THE TARGET ROOT that holds a nested state point file
+    (the case in which `TopNamed` matters) -/
+example (t : Target) :
+    (importFrom t h0 .none [] [j3] [[]] (walkOrder (exportMembers [j3] [[]]))).err = none
+    ∧ ProjEquiv (importFrom t h0 .none [] [j3] [[]] (walkOrder (exportMembers [j3] [[]]))).proj [j3] :=
+  valid_paths_roundtrip h0 [j3] [[]] t rfl (by intro _; simp)
+    (fun _ j hj => ex_nested.2.2.1 j (mem_j3 hj))
+    ⟨by decide, fun j hj => ex_nested.1.sp j (mem_j3 hj), fun j hj => ex_nested.1.nonempty j (mem_j3 hj)⟩
+    (fun j hj => ex_pathswf j (mem_j3 hj))
+    (by unfold PrefixFree; exact List.pairwise_singleton _ _)
+
+/-- hypotheses of `valid_paths_roundtrip_dir_anyorder` / `import_no_overwrite_dir_nested`: an
+    `os.walk` order that is NOT sorted (`a/10` listed before `a/1`) -/
+private def exOrder : List Comps :=
+  [[], ["a"], ["a", "10"], ["a", "1"], ["a", "1", "copy_of_other"]]
+
+private theorem ex_order : exOrder.Nodup ∧ ParentsFirst exOrder
+    ∧ ∀ d ∈ [["a", "1"], ["a", "10"]], d ∈ exOrder := by
+  refine ⟨by decide, ?_, by decide⟩
+  unfold ParentsFirst exOrder
+  decide
+
+example :
+    (importFrom .dir h0 .none [] [j3, j2] [["a", "1"], ["a", "10"]] exOrder).err = none
+    ∧ ProjEquiv (importFrom .dir h0 .none [] [j3, j2] [["a", "1"], ["a", "10"]] exOrder).proj [j3, j2] :=
+  valid_paths_roundtrip_dir_anyorder h0 [j3, j2] [["a", "1"], ["a", "10"]] rfl (by simp)
+    ex_nested.1 ex_nested.2.2.2.2 exOrder ex_order.1 ex_order.2.1 ex_order.2.2
+
+/-- hypotheses of `walkOrder_admissible_nested` -/
+example : (walkOrder (exportMembers [j3, j2] [["a", "1"], ["a", "10"]])).Nodup
+    ∧ ParentsFirst (walkOrder (exportMembers [j3, j2] [["a", "1"], ["a", "10"]]))
+    ∧ ∀ e ∈ [j3, j2].zip [["a", "1"], ["a", "10"]],
+        e.2 ∈ walkOrder (exportMembers [j3, j2] [["a", "1"], ["a", "10"]]) :=
+  walkOrder_admissible_nested h0 [j3, j2] [["a", "1"], ["a", "10"]] ex_nested.1 ex_pathswf
+    (by decide) ex_nested.2.2.2.2
+
+/-- hypothesis of `import_no_overwrite_*_nested`: the destination already holds a job `one`, the
+    export holds job `one` with a nested copy of job `other` -/
+private theorem ex_clash : ∃ e ∈ [j3, j2].zip [["a", "1"], ["a", "10"]], hasId e.1.id [j1] = true :=
+  ⟨(j3, ["a", "1"]), by simp, by decide⟩
+
+example (order : List Comps) :
+    importFrom .zip h0 .none [j1] [j3, j2] [["a", "1"], ["a", "10"]] order
+      = ⟨[j1], some .destinationExists, []⟩ :=
+  import_no_overwrite_zip_nested h0 [j3, j2] [["a", "1"], ["a", "10"]] [j1] ex_nested.1 ex_nested.2.2.1
+    ex_nested.2.2.2.2 (fun _ => ex_nested.2.2.2.1) ex_clash order
+
+example (order : List Comps) :
+    importFrom .tar h0 .none [j1] [j3, j2] [["a", "1"], ["a", "10"]] order
+      = ⟨[j1], some .destinationExists, []⟩ :=
+  import_no_overwrite_tar_nested h0 [j3, j2] [["a", "1"], ["a", "10"]] [j1] ex_nested.1
+    ex_nested.2.2.2.2 ex_clash order
+
+example :
+    (importFrom .dir h0 .none [j1] [j3, j2] [["a", "1"], ["a", "10"]] exOrder).err
+      = some .destinationExists :=
+  import_no_overwrite_dir_nested h0 [j3, j2] [["a", "1"], ["a", "10"]] [j1] ex_nested.1
+    ex_nested.2.2.2.2 ex_clash exOrder ex_order.1 ex_order.2.1 ex_order.2.2
+
+example :
+    (importFrom .dir h0 .none [j1] [j3, j2] [["a", "1"], ["a", "10"]]
+      (walkOrder (exportMembers [j3, j2] [["a", "1"], ["a", "10"]]))).err = some .destinationExists :=
+  import_no_overwrite_dir_walk_nested h0 [j3, j2] [["a", "1"], ["a", "10"]] [j1] ex_nested.1
+    ex_nested.2.2.2.2 (fun _ => ex_nested.2.2.2.1) ex_clash
+
+example (t : Target) :
+    (importFrom t h0 .none [j1] [j3, j2] [["a", "1"], ["a", "10"]]
+      (walkOrder (exportMembers [j3, j2] [["a", "1"], ["a", "10"]]))).err = some .destinationExists :=
+  import_no_overwrite_multi h0 [j3, j2] [["a", "1"], ["a", "10"]] [j1] t rfl (by decide)
+    (fun _ => ex_nested.2.2.1) ex_nested.1 ex_nested.2.2.2.2 ex_clash
+
+example (t : Target) :
+    (importFrom t h0 .none [j1] [j3, j2] [["a", "1"], ["a", "10"]]
+      (walkOrder (exportMembers [j3, j2] [["a", "1"], ["a", "10"]]))).err = some .destinationExists :=
+  (import_no_overwrite h0 [j3, j2] [["a", "1"], ["a", "10"]] [j1] t
+    (fun _ => ex_nested.2.2.1) ex_nested.1 ex_pathswf ex_nested.2.2.2.2 ex_clash).1
 
 /-- hypotheses of `export_checks_sound` / `export_accepts_sound` -/
 example : checkUnique ["a/1", "a/10", "b"] = true ∧ checkLeafNode ["a/1", "a/10", "b"] = true := by decide
